@@ -206,7 +206,7 @@ func spec_pkgInfoOf(p Package) *pkgInfo { pi, _ := p.(*pkgInfo); return pi }
 //@ func newPkg
 //@   props C13 C04 C06
 //@   assigns *
-//@   preserves pkg/types.Universe. pkg/sumfile.File. golang.org/x/tools/go/packages.
+//@   preserves pkg/types.Universe. pkg/sumfile.File. golang.org/x/tools/go/packages. pkg/types.pkgInfo.imports pkg/types.pkgInfo.u
 //@   requires pkg != nil && pkg.Types != nil && pkg.Types.Scope() != nil && pkg.TypesInfo != nil && pkg.Fset != nil && u != nil
 //@   assume forall id *ast.Ident :: has(pkg.TypesInfo.Defs, id) && pkg.TypesInfo.Defs[id] != nil && pkg.TypesInfo.Defs[id].Parent() == pkg.Types.Scope() ==> pkg.Types.Scope().Lookup(pkg.TypesInfo.Defs[id].Name()) == pkg.TypesInfo.Defs[id]
 //@   assume forall n string :: pkg.Types.Scope().Lookup(n) != nil ==> pkg.Types.Scope().Lookup(n).Name() == n && pkg.Types.Scope().Lookup(n).Parent() == pkg.Types.Scope() && (exists id *ast.Ident :: has(pkg.TypesInfo.Defs, id) && pkg.TypesInfo.Defs[id] == pkg.Types.Scope().Lookup(n))
@@ -221,6 +221,8 @@ func spec_pkgInfoOf(p Package) *pkgInfo { pi, _ := p.(*pkgInfo); return pi }
 //@   ensures forall n string :: has(spec_pkgInfoOf(result).funcs, n) ==> spec_pkgInfoOf(result).funcs[n] != nil && spec_pkgInfoOf(result).funcs[n] == spec_scopeFunc(pkg, n)
 //@   ensures forall n string :: spec_scopeFunc(pkg, n) != nil ==> has(spec_pkgInfoOf(result).funcs, n)
 //@   ensures spec_methodsOK(spec_pkgInfoOf(result)) && spec_importsOK(spec_pkgInfoOf(result))
+//@   ensures spec_pkgInfoOf(result).imports != nil && len(spec_pkgInfoOf(result).imports) == 0
+//@   note a new package starts with an EMPTY import table (its dependencies are not registered yet) and constructing it touches no other package's table (C13: nothing is resolved before registration is complete)
 //@   loop 1 invariant p != nil && p.Package == pkg && p.u == u && p.types != nil && p.constants != nil && p.funcs != nil && p.methods != nil
 //@   loop 1 invariant forall n string :: has(p.types, n) ==> p.types[n] != nil && p.types[n] == spec_scopeType(pkg, n)
 //@   loop 1 invariant forall n string :: has(p.constants, n) ==> p.constants[n] != nil && p.constants[n] == spec_scopeConst(pkg, n)
@@ -478,7 +480,7 @@ func spec_loadInv(u *Universe, local map[string]bool, direct map[string]bool, ro
 }
 
 //@ func Load
-//@   props C04 C07 C08
+//@   props C04 C07 C08 C13
 //@   requires forall i int :: 0 <= i && i < len(options) ==> options[i] != nil
 //@   assigns *
 //@   lit 1 modular
@@ -488,6 +490,7 @@ func spec_loadInv(u *Universe, local map[string]bool, direct map[string]bool, ro
 //@   note (lit 1 assume) go/packages: one record per import path in a load (PkgPath determines Dir and Module), imported packages are non-nil records
 //@   lit 1 ensures spec_loadInv(u, localPkgPaths, directPkgPaths, rootPkgPaths) && u == old(u) && u.sumFile == old(u.sumFile) && eq(directPkgPaths, old(directPkgPaths)) && eq(rootPkgPaths, old(rootPkgPaths))
 //@   lit 1 ensures has(u.pkgs, p.PkgPath) && (forall q string :: old(has(u.pkgs, q)) ==> has(u.pkgs, q))
+//@   note (C13) while Load registers packages NO registered package resolves its imports: the import table of every registered package is still empty when Load returns, so the first Imports() call resolves every path against the COMPLETE registry (a table filled during registration could keep a package object that a later registration of the same path replaces)
 //@   loop 2 invariant p != nil && eq(u.pkgs, entry(u.pkgs))
 //@   loop 3 invariant p != nil && pkg != nil
 //@   loop 3 invariant spec_loadInv(u, localPkgPaths, directPkgPaths, rootPkgPaths)
@@ -510,6 +513,14 @@ func spec_loadInv(u *Universe, local map[string]bool, direct map[string]bool, ro
 //@   loop 5 invariant forall q string :: has(directPkgPaths, q) ==> directPkgPaths[q]
 //@   loop 7 assume forall i int :: 0 <= i && i < len(pkgs) ==> pkgs[i] != nil && pkgs[i].Module != nil && spec_pkgFacts(pkgs[i])
 //@   loop 7 invariant spec_loadInv(u, localPkgPaths, directPkgPaths, rootPkgPaths)
+//@   lit 1 requires (forall q string :: has(u.pkgs, q) ==> spec_pkgInfoOf(u.pkgs[q]) != nil && len(spec_pkgInfoOf(u.pkgs[q]).imports) == 0)
+//@   lit 1 ensures (forall q string :: has(u.pkgs, q) ==> spec_pkgInfoOf(u.pkgs[q]) != nil && len(spec_pkgInfoOf(u.pkgs[q]).imports) == 0)
+//@   lit 1 ensures forall x *pkgInfo :: existed(x) ==> eq(x.imports, old(x.imports))
+//@   loop 3 invariant (forall q string :: has(u.pkgs, q) ==> spec_pkgInfoOf(u.pkgs[q]) != nil && len(spec_pkgInfoOf(u.pkgs[q]).imports) == 0) && len(spec_pkgInfoOf(pkg).imports) == 0
+//@   loop 3 invariant spec_pkgInfoOf(pkg) != nil && spec_pkgInfoOf(pkg).imports != nil
+//@   loop 4 invariant (forall q string :: has(u.pkgs, q) ==> spec_pkgInfoOf(u.pkgs[q]) != nil && len(spec_pkgInfoOf(u.pkgs[q]).imports) == 0)
+//@   loop 7 invariant (forall q string :: has(u.pkgs, q) ==> spec_pkgInfoOf(u.pkgs[q]) != nil && len(spec_pkgInfoOf(u.pkgs[q]).imports) == 0)
+//@   ensures result0 != nil ==> (forall q string :: has(result0.pkgs, q) ==> spec_pkgInfoOf(result0.pkgs[q]) != nil && len(spec_pkgInfoOf(result0.pkgs[q]).imports) == 0)
 //@   note Load records, for every local package, the hash of its WHOLE directory (nothing filtered out); a package is local iff its module is the module of some entrypoint (decided against the COMPLETE set of root modules: registration starts only after every entrypoint has been seen, which is what makes the answer independent of the order of the entrypoints), and it is flagged direct iff it is itself an entrypoint
 
 //@ func Universe.LocateInPackage
